@@ -20,7 +20,9 @@ EXPLANATION = (
     "E5 every builtin argument is type-checked before an attribute of it is read; E6 registry look-ups by a user-supplied name are guarded; E7 every "
     "constant x.args[k] in ClauseDB / ClauseDBEngine has the arity of x established on all paths; E8 LogicProgram.lineno, which formats the location of "
     "every error message, uses the character offset only where `offset is None` is excluded for its current binding (locations (file, None) yield None). "
-    "Implicit exceptions in general (None dereference elsewhere, KeyError, recursion limits) are not decided."
+    "E9 contradictory key beliefs: a local dictionary that is read with .get(k) somewhere in a function (a missing key is expected) is not read with [k] elsewhere "
+    "in that function unless a membership test, a comprehension guard or a reasoned table row covers the access. "
+    "Implicit exceptions in general (None dereference elsewhere, other KeyErrors, recursion limits) are not decided."
 )
 TECHNIQUE = "static analysis: import resolution, exception-flow over resolved call graph, handler-coverage tables"
 
@@ -769,7 +771,81 @@ def rule_e8(repo, col):
     col.floor("E8.offset_uses", n, 2)
 
 
+# E9 reasoned exceptions: (module, function, subscript) -> why the key is present
+E9_TABLE = {
+    ("problog.formula", "LogicFormula.propagate", "current[abs(at)]"): "guarded by `at in current`; `at` ranges over sets of abs() ids, so abs(at) == at (and nothing is ever added to atoms_in_rules: the loop is dead)",
+    ("problog.ground_yap", "read_grounding", "num2index[names[q]]"): "external yap grounder (not shipped); the reader registers every name in num2index before the queries are read",
+    ("problog.sdd_formula_explicit", "build_explicit_from_logicdag", "node_to_indicator[mapped_line]"): "PySDD-only module; the indicator of a mapped line is created in the branch above for every line that reaches this statement",
+}
+
+
+def rule_e9(repo, col):
+    """contradictory beliefs about a local dictionary: read with .get(k) in one place (the key may be missing) and with [k] in another without a
+    membership test - one of the two is wrong (Engler et al.); on an error path the wrong one is a KeyError instead of a ProbLog error"""
+    from .. import cfg as cfgmod
+
+    n = 0
+    for f in repo.all_functions():
+        dicts = set()
+        for x in walk_no_nested(f.node):
+            if isinstance(x, ast.Assign) and len(x.targets) == 1 and isinstance(x.targets[0], ast.Name):
+                v = x.value
+                if (isinstance(v, ast.Dict) and not v.keys) or (isinstance(v, ast.Call) and dotted(v.func) == "dict" and not v.args and not v.keywords):
+                    dicts.add(x.targets[0].id)
+        if not dicts:
+            continue
+        gets, subs = {}, {}
+        parents = None
+        for x in walk_no_nested(f.node):
+            if isinstance(x, ast.Call) and isinstance(x.func, ast.Attribute) and x.func.attr == "get" and isinstance(x.func.value, ast.Name) and x.func.value.id in dicts:
+                gets.setdefault(x.func.value.id, []).append(x)
+            if isinstance(x, ast.Subscript) and isinstance(x.ctx, ast.Load) and isinstance(x.value, ast.Name) and x.value.id in dicts:
+                subs.setdefault(x.value.id, []).append(x)
+        both = [d for d in sorted(dicts) if d in gets and d in subs]
+        if not both:
+            continue
+        g = cfgmod.build(f.node)
+        facts = cfgmod.available_facts(g)
+        if parents is None:
+            parents = f.module.parents()
+        for d in both:
+            for sub in subs[d]:
+                cn = g.node_containing(sub)
+                st = facts.get(cn.id) if cn is not None else None
+                if st is None:
+                    continue
+                key = norm(sub.slice)
+                n += 1
+                if ("%s in %s" % (key, d), True) in st:
+                    col.ok("E9", f.module, sub, "membership established: %s in %s" % (key, d), function=f.qualname)
+                    continue
+                # comprehension guard: [.. d[k] .. for k in .. if k in d]
+                cur = parents.get(sub)
+                guarded = False
+                while cur is not None and cur is not f.node:
+                    if isinstance(cur, (ast.ListComp, ast.SetComp, ast.GeneratorExp, ast.DictComp)):
+                        for gen in cur.generators:
+                            if any(norm(c_) == "%s in %s" % (key, d) for c_ in gen.ifs):
+                                guarded = True
+                    cur = parents.get(cur)
+                if guarded:
+                    col.ok("E9", f.module, sub, "comprehension guard: %s in %s" % (key, d), function=f.qualname)
+                    continue
+                # the key was stored on every path before (d[k] = ...)
+                if any(src == "<stored %s[%s]>" % (d, key) for src, _ in st):
+                    col.ok("E9", f.module, sub, "stored before", function=f.qualname)
+                    continue
+                tk = (f.module.name, f.qualname, norm(sub))
+                if tk in E9_TABLE:
+                    col.ok("E9", f.module, sub, "table: %s" % E9_TABLE[tk], function=f.qualname)
+                    continue
+                col.fail("E9", f.module, sub, "%s reads the local dictionary %s with %s although the same function reads it with %s elsewhere (so a missing key is expected) and no "
+                         "membership test covers this access: a missing key raises KeyError instead of a ProbLog error" % (f.qualname, d, norm(sub), norm(gets[d][0])[:50]), function=f.qualname)
+    col.floor("E9.dictionary_reads", n, 5)
+
+
 def run(repo, col):
+    col.rule("E9", "no contradictory key beliefs about a local dictionary (.get here, [k] there)")
     col.rule("E8", "the error-location formatter tolerates locations without an offset")
     col.rule("E1", "import resolution")
     col.rule("E2", "containment of internal control exceptions (UnifyError, UnknownClauseInternal)")
@@ -786,3 +862,4 @@ def run(repo, col):
     rule_e6(repo, col)
     rule_e7(repo, col)
     rule_e8(repo, col)
+    rule_e9(repo, col)
